@@ -27,7 +27,7 @@ class ThreadKey(Iterable[str]):
 
     """
 
-    _pattern = re.compile(r'<[^>]*>')
+    _pattern = re.compile(r'<[^<>]*>')
     _whitespace = re.compile(r'\s+')
     _fwd_pattern = re.compile(r'\s*fwd\s*:\s*', re.I)
     _re_pattern = re.compile(r'\s*re\s*:\s*', re.I)
